@@ -154,7 +154,7 @@ func TestP1Tokens(t *testing.T) {
 	defer rec.Finish(t)
 	rec.Rule("sequences of 0-30 objects (integers incl. boundary values and any int64; reals; literal and executable names over all regular bytes incl. >= 0x80, names that resemble numbers (1e, 16#, 8#9, 1.2.3, +-1, Inf, 0x1p4 ...), the empty literal name; strings; [ ] << >>; nested procedures to depth 3), each object spelled with independent choices: integers with sign, leading zeros or radix form (base 2-36, digit case per digit); reals as digits.digits / .digits / digits. with optional e/E exponent and signs, and integers too large for the integer type; strings as ( ) with per-byte choice of raw, 1-3 digit octal, named escape, ignored backslash, balanced raw parentheses, backslash-newline continuations (LF, CR, CRLF), raw CR/LF/CRLF for newline, or as < > (digit case, interior white space of all kinds, odd digit count) or <~ ~> (z, every tail length, interior white space); separators per gap: space, tab, CR, LF, CRLF, FF, NUL, pairs, comments, or nothing where a neighbour is self-delimiting; %%Key, %%Key: value and %%+ continuation lines at column 0 between top-level tokens and before the text. Oracle: executing `{ text }` leaves one procedure whose elements equal the model by type and value (reals against a math/big decimal conversion; number/name classification by the harness's PLRM grammar), and Interpreter.DSC equals the model's comment list. Non-trivial: >= 3 tokens and (a gap without white space at a delimiter, a string using >= 2 escape kinds, a number in non-plain form, or a DSC line); distinct by text. Excluded: reals outside the normal float64 range, radix values > maxint, radix bases with more than two digits, immediately evaluated names //n.")
 	opts := psgen.LexOpts{NoGoFloatNames: goFloatBug(rec)}
-	ev.SetupRapid(30000, 1600000)
+	ev.SetupRapid(150000, 4000000)
 	rapid.Check(t, func(t *rapid.T) {
 		c, feat := psgen.Lex(t, opts)
 		rec.Eval(1)
@@ -315,7 +315,7 @@ func TestP3PS(t *testing.T) {
 		}
 		walk(nil)
 	}
-	ev.SetupRapid(30000, 1000000)
+	ev.SetupRapid(100000, 2000000)
 	rapid.Check(t, func(t *rapid.T) {
 		if rapid.IntRange(0, 3).Draw(t, "kind") == 0 {
 			n := rapid.StringMatching(`[!-$&'*-.0-;=?-Z\\^-z|~\x80-\xff]{0,12}`).Draw(t, "name")
